@@ -102,22 +102,28 @@ package sync
 //@   ensures !result.IsZero() ==> verified(result)
 
 //@ func (*ranges).head(rs)
-//@   trusted
-//@   ensures len(rs.ranges) == 0 ==> result.IsZero()
+//@   props C07
+//@   requires forall i int :: 0 <= i && i < len(rs.ranges) ==> rs.ranges[i] != nil
+//@   ensures [C07] empty: len(rs.ranges) == 0 ==> result.IsZero()
+//@   ensures [C07] last-of-last: len(rs.ranges) > 0 ==> result == ite(len(rs.ranges[len(rs.ranges) - 1].headers) == 0, zeroHdr, rs.ranges[len(rs.ranges) - 1].headers[len(rs.ranges[len(rs.ranges) - 1].headers) - 1])
 
 //@ func (*headerRange).Append(r, h)
-//@   trusted
+//@   props C07
+//@   requires r != nil && len(r.headers) + len(h) < 140737488355328
 //@   modifies headerRange.headers, elems(H)
+//@   ensures [C07] appended: len(r.headers) == old(len(r.headers)) + len(h) && (forall k int :: 0 <= k && k < old(len(r.headers)) ==> r.headers[k] == old(r.headers[k])) && (forall k int :: 0 <= k && k < len(h) ==> r.headers[old(len(r.headers)) + k] == h[k])
 
 //@ func newRange(h)
-//@   trusted
-//@   ensures result != nil && fresh(result)
+//@   props C07
+//@   ensures [C07] singleton: result != nil && fresh(result) && result.start == h.Height() && len(result.headers) == 1 && result.headers[0] == h
 
 // pending ranges never overlap (C07): a header that is not above the current pending head is dropped, it neither
 // extends a range nor starts a new one
 //@ ghost var pendingAdds int -- number of ranges.Add calls (targets recorded in the pending set)
+//@ pure rangesShape(rs) = forall i int :: 0 <= i && i < len(rs.ranges) ==> rs.ranges[i] != nil && len(rs.ranges[i].headers) < 70368744177664
 //@ func (*ranges).Add(rs, h)
 //@   props C03, C07
+//@   rely after Lock: rangesShape(rs) -- shape invariant of the pending set, assumed under its lock (every writer keeps it: ranges are created non-nil and only grow by one header at a time)
 //@   effect pendingAdds := old(pendingAdds) + 1
 //@   requires [C03] verified-pending: verified(h)
 //@   ghost hd H := result0 of call head #0
